@@ -32,8 +32,10 @@ for name, line in res:
     m = re.search(r"keys=(\[.*?\])", line)
     print("%-24s %s %s" % (name, "DETECTED" if det else "MISSED/ERR", (m.group(1)[:150] if m else line[:200])))
 print("%d/%d detected" % (ok, len(res)))
-if not args:
-    out = {}
+if True:
+    path_ = os.path.join(V, "seeded", "REGRESSION.json")
+    # a run restricted by patterns refreshes its own entries and keeps the others
+    out = json.load(open(path_)) if args and os.path.exists(path_) else {}
     for name, line in res:
         m = re.search(r"keys=(\[.*?\])", line)
         out[name] = {"detected": "detected=yes" in line, "tier": tier,
